@@ -582,6 +582,13 @@ Definition spec_payload_of (es : list ent) : list (bytes * bytes) :=
   map (fun e => (zslice 0 16 (e_hdr e), e_data e)) (filter (fun e => negb (ent_is_sig e)) es).
 Definition deb_payload (f : bytes) : result (list (bytes * bytes)) :=
   match ar_spec_parse f with Some es => Ok (spec_payload_of es) | None => Err E_MALFORMED end.
+(* signedness and the digest input according to the specification: some member is named _gpg*; the manifest is determined by
+   name field, length and data of every other member, in order (an injective encoding, same layout as ser_member) *)
+Definition deb_spec_signed (f : bytes) : bool :=
+  match ar_spec_parse f with Some es => existsb ent_is_sig es | None => false end.
+Definition spec_ser (nd : bytes * bytes) : bytes := fst nd ++ be_enc 8 (zlen (snd nd)) ++ be_enc 8 (zlen (snd nd)) ++ snd nd.
+Definition deb_spec_hashin (f : bytes) : result bytes :=
+  match ar_spec_parse f with Some es => Ok (concat (map spec_ser (spec_payload_of es))) | None => Err E_MALFORMED end.
 (* the spec-level signing operation: replace the last member named _gpg<role>, or append *)
 Definition spec_sig_name (role : bytes) : bytes := spec_gpg ++ role.
 Fixpoint replace_last (p : ent -> bool) (new : ent) (es : list ent) : option (list ent) :=
